@@ -16,6 +16,9 @@
       gen_dhp_init_parseOK    … and `ParseOKD` holds
       gen_bdhp_init, gen_bdhp_init_fresh, gen_bdhp_init_parseOK    the same for bdhp.go (`ParseOKBD`)
   The proofs follow `gen_hp_init*` (GenHashPropsDict.lean, GenHPParse.lean) and `gen_bhp_init*` (GenBHPHist.lean).
+  Shape independence: what the configurations satisfy after `SetDefaults` / `Verify` is derived from the MODEL through the
+  ties of the configuration topics (`double_buf_fix`, `double_dh_fix`, `double_verify_parts`); only the three `init`
+  functions are unfolded, and their `err` tests are decided by `init_simp` from the VALUE of `err`, in any spelling.
 -/
 import LzModel.Generated.CodeDHPInit
 import LzModel.Generated.CodeBDHPInit
@@ -25,6 +28,7 @@ import LzProofs.GenPropsCfgBDHP
 import LzProofs.GenDHPParse
 import LzProofs.GenBDHPParse
 import LzProofs.ParseProps
+import LzProofs.ConfigLemmas
 
 set_option linter.unusedSimpArgs false
 set_option linter.unusedVariables false
@@ -32,14 +36,19 @@ set_option linter.unusedVariables false
 namespace LZ.GenDHPInit
 open LZ LZ.Gen LZ.GenBuf LZ.GenHash LZ.GenProps LZ.GenDHPParse LZ.GenBDHPParse
 
-/-! ## `dhConfig.SetDefaults` is idempotent -/
+/-! ## `dhConfig.SetDefaults` is idempotent
+
+    Derived from the tie `gen_dhDefaults` (LzProofs/GenPropsCfgHash.lean: the generated function equals the double-hash
+    part of the model's `setDefaults .DHP`) and a computation in the MODEL; the generated function is not unfolded
+    here, so the spelling of its tests (`il1 < 5` / `il1 >= 5` with swapped arms, order of the defaults) is immaterial. -/
 
 theorem dhDefaults_idem (d : Gen.dhConfig) :
     dhConfig_SetDefaults (dhConfig_SetDefaults d) = dhConfig_SetDefaults d := by
   obtain ⟨⟨il1, hb1⟩, ⟨il2, hb2⟩⟩ := d
-  simp only [dhConfig_SetDefaults, hashConfig_SetDefaults]
-  by_cases a : il1 = 0 <;> by_cases b : hb1 = 0 <;> by_cases c : il2 = 0 <;> by_cases e : hb2 = 0 <;>
-    by_cases f : il1 < 5 <;> simp [a, b, c, e, f]
+  rw [gen_dhDefaults ⟨⟨il1, hb1⟩, ⟨il2, hb2⟩⟩, gen_dhDefaults]
+  simp only [setDefaults, ofDh, bufDefaults, hashDefaults, Facts.dhSmallInputLen, Facts.defInputLen2Small,
+    Facts.defInputLen2Large, Facts.defInputLen, Facts.defHashBits, Gen.dhConfig.mk.injEq, Gen.hashConfig.mk.injEq]
+  refine ⟨⟨?_, ?_⟩, ?_, ?_⟩ <;> (repeat' split) <;> omega
 
 theorem dhVerify_parts (d : Gen.dhConfig) (h : dhConfig_Verify d = Gen.Err.ok) :
     InitOK d.H1.InputLen d.H1.HashBits ∧ InitOK d.H2.InputLen d.H2.HashBits ∧ d.H1.InputLen < d.H2.InputLen := by
@@ -47,6 +56,62 @@ theorem dhVerify_parts (d : Gen.dhConfig) (h : dhConfig_Verify d = Gen.Err.ok) :
   simp only [Bool.and_eq_true, decide_eq_true_eq] at this
   obtain ⟨⟨a, b⟩, c⟩ := this
   exact ⟨hashVerify_initOK _ ((gen_hashVerify _).mpr a), hashVerify_initOK _ ((gen_hashVerify _).mpr b), c⟩
+
+/-! ## the double-hash kinds of the model (`.DHP`, `.BDHP`)
+
+    What `setDefaults` / `verify` of the model say about the helper configurations (`BufConfig`, `dhConfig`) that the Go
+    code cuts out of the parser configuration.  Everything goes through the tie lemmas of the configuration topics
+    (`gen_bufDefaults'`, `gen_dhDefaults`, `gen_bufVerify`, `gen_dhVerify`: LzProofs/GenPropsCfg*.lean) and the model; no
+    generated function is unfolded, so `DHPConfig.Verify` / `BDHPConfig.Verify` / `SetDefaults` may be spelled in any
+    way that keeps the ties `gen_verify_DHP`, `gen_setDefaults_DHP` (… `_BDHP`) provable. -/
+
+/-- the buffer part of a `setDefaults` image is a fixed point of `BufConfig.SetDefaults` -/
+theorem double_buf_fix (k : Kind) (hk : k = .DHP ∨ k = .BDHP) (x : Cfg) :
+    BufConfig_SetDefaults ⟨(setDefaults k x).shrinkSize, (setDefaults k x).bufferSize, (setDefaults k x).windowSize,
+        (setDefaults k x).blockSize⟩ =
+      ⟨(setDefaults k x).shrinkSize, (setDefaults k x).bufferSize, (setDefaults k x).windowSize,
+        (setDefaults k x).blockSize⟩ := by
+  rw [gen_bufDefaults', Gen.BufConfig.mk.injEq]
+  have h := setDefaults_idem' k x
+  have e1 := congrArg Cfg.shrinkSize h
+  have e2 := congrArg Cfg.bufferSize h
+  have e3 := congrArg Cfg.windowSize h
+  have e4 := congrArg Cfg.blockSize h
+  rcases hk with rfl | rfl <;> exact ⟨e1, e2, e3, e4⟩
+
+/-- the double-hash part of a `setDefaults` image is a fixed point of `dhConfig.SetDefaults` -/
+theorem double_dh_fix (k : Kind) (hk : k = .DHP ∨ k = .BDHP) (x : Cfg) :
+    dhConfig_SetDefaults ⟨⟨(setDefaults k x).inputLen1, (setDefaults k x).hashBits1⟩,
+        ⟨(setDefaults k x).inputLen2, (setDefaults k x).hashBits2⟩⟩ =
+      ⟨⟨(setDefaults k x).inputLen1, (setDefaults k x).hashBits1⟩,
+        ⟨(setDefaults k x).inputLen2, (setDefaults k x).hashBits2⟩⟩ := by
+  rw [gen_dhDefaults, Gen.dhConfig.mk.injEq, Gen.hashConfig.mk.injEq, Gen.hashConfig.mk.injEq]
+  have h := setDefaults_idem' k x
+  have e1 := congrArg Cfg.inputLen1 h
+  have e2 := congrArg Cfg.hashBits1 h
+  have e3 := congrArg Cfg.inputLen2 h
+  have e4 := congrArg Cfg.hashBits2 h
+  rcases hk with rfl | rfl <;> exact ⟨⟨e1, e2⟩, e3, e4⟩
+
+/-- a configuration the model's `verify` accepts passes `BufConfig.Verify` and `dhConfig.Verify` -/
+theorem double_verify_parts (k : Kind) (hk : k = .DHP ∨ k = .BDHP) (c : Cfg) (hv : verify k c = true) :
+    BufConfig_Verify ⟨c.shrinkSize, c.bufferSize, c.windowSize, c.blockSize⟩ = Gen.Err.ok ∧
+    dhConfig_Verify ⟨⟨c.inputLen1, c.hashBits1⟩, ⟨c.inputLen2, c.hashBits2⟩⟩ = Gen.Err.ok := by
+  have h : bufVerify c = true ∧ hashVerify c.inputLen1 c.hashBits1 Facts.maxHashBits = true ∧
+      hashVerify c.inputLen2 c.hashBits2 Facts.maxHashBits = true ∧ c.inputLen1 < c.inputLen2 := by
+    rcases hk with rfl | rfl <;>
+      (simp only [verify, Bool.and_eq_true, decide_eq_true_eq] at hv; exact ⟨hv.1.1.1, hv.1.1.2, hv.1.2, hv.2⟩)
+  obtain ⟨a, b, c1, d⟩ := h
+  refine ⟨(gen_bufVerify _).mpr a, (gen_dhVerify _).mpr ?_⟩
+  simp only [Bool.and_eq_true, decide_eq_true_eq]
+  exact ⟨⟨b, c1⟩, d⟩
+
+/-- simp set that decides the `err != nil` / `err == nil` tests of the translated `init` functions once the value of
+    `err` is known (`Err.ok ≠ Err.ok`, `¬Err.ok = Err.ok`, `Err.ok = Err.ok`, `False`/`True` from a hypothesis), in
+    either spelling and with either arm first; no condition is spelled out in the proofs below -/
+macro "init_simp" "[" ls:Lean.Parser.Tactic.simpLemma,* "]" : tactic =>
+  `(tactic| simp only [$ls,*, bind_ok, ne_eq, not_true_eq_false, not_false_eq_true, Classical.not_not, eq_self,
+      reduceCtorEq, if_true, if_false, ↓reduceIte])
 
 /-! ## `doubleHashDictionary.init` -/
 
@@ -65,7 +130,7 @@ theorem gen_ddict_init (f : Gen.doubleHashDictionary) (dc : Gen.dhConfig) (bc : 
   obtain ⟨g1, hg1, hof1, hwf1⟩ := gen_hash_init f.h1 dc.H1.InputLen dc.H1.HashBits hw1 i1
   obtain ⟨g2, hg2, hof2, hwf2⟩ := gen_hash_init f.h2 dc.H2.InputLen dc.H2.HashBits hw2 i2
   unfold doubleHashDictionary_init
-  simp only [hpi, bind_ok, ne_eq, not_true_eq_false, if_false, hdi, hvd, hg1, hg2]
+  init_simp [hpi, hdi, hvd, hg1, hg2]
   rw [hbi] at hofpb
   exact ⟨_, rfl, hofpb, hof1, hof2, ⟨hpwf, hwf1, hwf2⟩⟩
 
@@ -89,46 +154,26 @@ theorem gen_dhp_init (s : Gen.doubleHashParser) (raw : Cfg) (hw1 : GWF s.doubleH
   by_cases hok : DHPConfig_Verify (DHPConfig_SetDefaults (toDHP raw)) = Gen.Err.ok
   · have hvm : verify .DHP (setDefaults .DHP (raw.restrict .DHP)) = true := hv.mp hok
     simp only [hvm, if_true]
+    -- what the model says about the two helper configurations, transported to the Go struct along `hc`
+    have hparts := double_verify_parts .DHP (Or.inl rfl) _ hvm
+    have hbi := double_buf_fix .DHP (Or.inl rfl) (raw.restrict .DHP)
+    have hdi := double_dh_fix .DHP (Or.inl rfl) (raw.restrict .DHP)
+    rw [← hc] at hparts hbi hdi
     unfold doubleHashParser_init
     dsimp only
-    have hparts : BufConfig_Verify ⟨(DHPConfig_SetDefaults (toDHP raw)).ShrinkSize, (DHPConfig_SetDefaults (toDHP raw)).BufferSize,
-          (DHPConfig_SetDefaults (toDHP raw)).WindowSize, (DHPConfig_SetDefaults (toDHP raw)).BlockSize⟩ = Gen.Err.ok ∧
-        dhConfig_Verify ⟨⟨(DHPConfig_SetDefaults (toDHP raw)).InputLen1, (DHPConfig_SetDefaults (toDHP raw)).HashBits1⟩,
-          ⟨(DHPConfig_SetDefaults (toDHP raw)).InputLen2, (DHPConfig_SetDefaults (toDHP raw)).HashBits2⟩⟩ = Gen.Err.ok := by
-      have := hok
-      simp only [DHPConfig_Verify] at this
-      split at this
-      · rename_i hne; exact absurd this hne
-      · rename_i hne
-        refine ⟨Classical.not_not.mp hne, ?_⟩
-        split at this
-        · rename_i hne2; exact absurd this hne2
-        · rename_i hne2; exact Classical.not_not.mp hne2
-    have hbc : ∃ b0 : Gen.BufConfig, (⟨(DHPConfig_SetDefaults (toDHP raw)).ShrinkSize, (DHPConfig_SetDefaults (toDHP raw)).BufferSize,
-          (DHPConfig_SetDefaults (toDHP raw)).WindowSize, (DHPConfig_SetDefaults (toDHP raw)).BlockSize⟩ : Gen.BufConfig) =
-        BufConfig_SetDefaults b0 := ⟨_, rfl⟩
-    have hhc : ∃ d0 : Gen.dhConfig, (⟨⟨(DHPConfig_SetDefaults (toDHP raw)).InputLen1, (DHPConfig_SetDefaults (toDHP raw)).HashBits1⟩,
-          ⟨(DHPConfig_SetDefaults (toDHP raw)).InputLen2, (DHPConfig_SetDefaults (toDHP raw)).HashBits2⟩⟩ : Gen.dhConfig) =
-        dhConfig_SetDefaults d0 := ⟨_, rfl⟩
     generalize DHPConfig_SetDefaults (toDHP raw) = c' at *
     obtain ⟨hvb, hvh⟩ := hparts
-    obtain ⟨b0, hb0⟩ := hbc
-    obtain ⟨d0, hd0⟩ := hhc
-    have hbi : BufConfig_SetDefaults ⟨c'.ShrinkSize, c'.BufferSize, c'.WindowSize, c'.BlockSize⟩ =
-        ⟨c'.ShrinkSize, c'.BufferSize, c'.WindowSize, c'.BlockSize⟩ := by rw [hb0, bufDefaults_idem]
-    have hdi : dhConfig_SetDefaults ⟨⟨c'.InputLen1, c'.HashBits1⟩, ⟨c'.InputLen2, c'.HashBits2⟩⟩ =
-        ⟨⟨c'.InputLen1, c'.HashBits1⟩, ⟨c'.InputLen2, c'.HashBits2⟩⟩ := by rw [hd0, dhDefaults_idem]
     obtain ⟨f', hf, hofpb, hof1, hof2, hwf⟩ := gen_ddict_init s.doubleHashDictionary
       ⟨⟨c'.InputLen1, c'.HashBits1⟩, ⟨c'.InputLen2, c'.HashBits2⟩⟩
       ⟨c'.ShrinkSize, c'.BufferSize, c'.WindowSize, c'.BlockSize⟩ hw1 hw2 hbi hvb hdi hvh
-    simp only [hok, ne_eq, not_true_eq_false, if_false, hf, bind_ok]
+    init_simp [hok, hf]
     refine ⟨_, rfl, ?_, hwf⟩
     simp only [ofDHPs, ofDDict, hofpb, hof1, hof2, freshDict, ← hc]
     rfl
   · have hvm : ¬ verify .DHP (setDefaults .DHP (raw.restrict .DHP)) = true := fun c => hok (hv.mpr c)
     simp only [hvm, if_false]
     unfold doubleHashParser_init
-    simp only [hok, ne_eq, not_false_eq_true, if_true]
+    init_simp [hok]
     exact ⟨_, rfl, hok⟩
 
 /-- … for the receiver `new(doubleHashParser)` (all fields zero): exactly the model's fresh parser -/
@@ -231,46 +276,25 @@ theorem gen_bdhp_init (s : Gen.bdhp) (raw : Cfg) (hw1 : GWF s.doubleHashDictiona
   by_cases hok : BDHPConfig_Verify (BDHPConfig_SetDefaults (toBDHP raw)) = Gen.Err.ok
   · have hvm : verify .BDHP (setDefaults .BDHP (raw.restrict .BDHP)) = true := hv.mp hok
     simp only [hvm, if_true]
+    have hparts := double_verify_parts .BDHP (Or.inr rfl) _ hvm
+    have hbi := double_buf_fix .BDHP (Or.inr rfl) (raw.restrict .BDHP)
+    have hdi := double_dh_fix .BDHP (Or.inr rfl) (raw.restrict .BDHP)
+    rw [← hc] at hparts hbi hdi
     unfold bdhp_init
     dsimp only
-    have hparts : BufConfig_Verify ⟨(BDHPConfig_SetDefaults (toBDHP raw)).ShrinkSize, (BDHPConfig_SetDefaults (toBDHP raw)).BufferSize,
-          (BDHPConfig_SetDefaults (toBDHP raw)).WindowSize, (BDHPConfig_SetDefaults (toBDHP raw)).BlockSize⟩ = Gen.Err.ok ∧
-        dhConfig_Verify ⟨⟨(BDHPConfig_SetDefaults (toBDHP raw)).InputLen1, (BDHPConfig_SetDefaults (toBDHP raw)).HashBits1⟩,
-          ⟨(BDHPConfig_SetDefaults (toBDHP raw)).InputLen2, (BDHPConfig_SetDefaults (toBDHP raw)).HashBits2⟩⟩ = Gen.Err.ok := by
-      have := hok
-      simp only [BDHPConfig_Verify] at this
-      split at this
-      · rename_i hne; exact absurd this hne
-      · rename_i hne
-        refine ⟨Classical.not_not.mp hne, ?_⟩
-        split at this
-        · rename_i hne2; exact absurd this hne2
-        · rename_i hne2; exact Classical.not_not.mp hne2
-    have hbc : ∃ b0 : Gen.BufConfig, (⟨(BDHPConfig_SetDefaults (toBDHP raw)).ShrinkSize, (BDHPConfig_SetDefaults (toBDHP raw)).BufferSize,
-          (BDHPConfig_SetDefaults (toBDHP raw)).WindowSize, (BDHPConfig_SetDefaults (toBDHP raw)).BlockSize⟩ : Gen.BufConfig) =
-        BufConfig_SetDefaults b0 := ⟨_, rfl⟩
-    have hhc : ∃ d0 : Gen.dhConfig, (⟨⟨(BDHPConfig_SetDefaults (toBDHP raw)).InputLen1, (BDHPConfig_SetDefaults (toBDHP raw)).HashBits1⟩,
-          ⟨(BDHPConfig_SetDefaults (toBDHP raw)).InputLen2, (BDHPConfig_SetDefaults (toBDHP raw)).HashBits2⟩⟩ : Gen.dhConfig) =
-        dhConfig_SetDefaults d0 := ⟨_, rfl⟩
     generalize BDHPConfig_SetDefaults (toBDHP raw) = c' at *
     obtain ⟨hvb, hvh⟩ := hparts
-    obtain ⟨b0, hb0⟩ := hbc
-    obtain ⟨d0, hd0⟩ := hhc
-    have hbi : BufConfig_SetDefaults ⟨c'.ShrinkSize, c'.BufferSize, c'.WindowSize, c'.BlockSize⟩ =
-        ⟨c'.ShrinkSize, c'.BufferSize, c'.WindowSize, c'.BlockSize⟩ := by rw [hb0, bufDefaults_idem]
-    have hdi : dhConfig_SetDefaults ⟨⟨c'.InputLen1, c'.HashBits1⟩, ⟨c'.InputLen2, c'.HashBits2⟩⟩ =
-        ⟨⟨c'.InputLen1, c'.HashBits1⟩, ⟨c'.InputLen2, c'.HashBits2⟩⟩ := by rw [hd0, dhDefaults_idem]
     obtain ⟨f', hf, hofpb, hof1, hof2, hwf⟩ := gen_ddict_init s.doubleHashDictionary
       ⟨⟨c'.InputLen1, c'.HashBits1⟩, ⟨c'.InputLen2, c'.HashBits2⟩⟩
       ⟨c'.ShrinkSize, c'.BufferSize, c'.WindowSize, c'.BlockSize⟩ hw1 hw2 hbi hvb hdi hvh
-    simp only [hok, ne_eq, not_true_eq_false, if_false, hf, bind_ok]
+    init_simp [hok, hf]
     refine ⟨_, rfl, ?_, hwf⟩
     simp only [ofBDHPs, ofDDict, hofpb, hof1, hof2, freshDict, ← hc]
     rfl
   · have hvm : ¬ verify .BDHP (setDefaults .BDHP (raw.restrict .BDHP)) = true := fun c => hok (hv.mpr c)
     simp only [hvm, if_false]
     unfold bdhp_init
-    simp only [hok, ne_eq, not_false_eq_true, if_true]
+    init_simp [hok]
     exact ⟨_, rfl, hok⟩
 
 /-- … for the receiver `new(bdhp)` (all fields zero): exactly the model's fresh parser -/
